@@ -188,6 +188,7 @@ def strategy_(draw, tier):
     return {"tail_reserve": tail, "tail_dup": draw(st.sampled_from([None, None, 0, 0, 1])),
             "nsess": nsess, "ndds": draw(st.sampled_from([0, 0, 1, 4, 40])), "cache": draw(st.booleans()),
             "gattr": draw(st.booleans()), "grgattr": draw(st.integers(0, 2)),
+            "vg_edit": [draw(st.integers(0, 3)), draw(st.booleans())] if draw(st.integers(0, 2)) == 0 else None,
             "sd_first": draw(st.booleans()), "objs": objs, "ann": ann,
             "q": [[draw(st.integers(0, 3)), draw(st.sampled_from([1, 1, 2, 3, 5, 64]))] for _ in range(4)]}
 
@@ -501,6 +502,29 @@ def build_sessions(case, d, model):
         else:
             h_part(); sd_part()
         progs.append(p)
+    ve = case.get("vg_edit")
+    vgs = [(k, m) for k, m in model.items() if isinstance(m, dict) and m.get("kind") == "vg" and m["members"]]
+    if ve and vgs:
+        # one more session edits a stored vgroup so that its record becomes SHORTER (a member removed), optionally
+        # giving it its first attribute at the same time
+        name, m = vgs[ve[0] % len(vgs)]
+        p = Prog()
+        p.call("i", "Hopen", "f.hdf", 3, 0, bind="f")
+        p.call("i", "Vinitialize", V("f"))
+        p.call("i", "Vfind", V("f"), name, bind="er")
+        p.call("i", "Vattach", V("f"), V("er"), "w", bind="eg")
+        p.call("i", "hx_vdelete_at", V("eg"), 0)
+        m["members"].pop(0)
+        if ve[1] and not m["o"]["attr"]:
+            av = vals("float32", 2, 4)
+            p.call("i", "Vsetattr", V("eg"), "gattr", 5, 2, native(av))
+            m["attr"] = be(av, "float32")
+            m["late_attr"] = True
+        p.call("i", "Vdetach", V("eg"))
+        p.call("i", "Vfinish", V("f"))
+        p.call("i", "Hclose", V("f"))
+        model["_vg_edit"] = True
+        progs.append(p)
     return progs
 
 
@@ -634,7 +658,7 @@ def check(case, d, labels):
                 ln["n"] = q.call("i", "Vntagrefs", V("g"))
                 ln["tr"] = q.call("i", "Vgettagrefs", V("g"), Out(4 * 8), Out(4 * 8), 8)
                 ln["vref"] = q.call("i", "VQueryref", V("g"))
-                if o["attr"]:
+                if o["attr"] or model[o["name"]].get("late_attr"):
                     ln["att"] = q.call("i", "Vgetattdatainfo", V("g"), 0, Out(4), Out(4))
                 q.call("i", "Vdetach", V("g"))
                 plan.append(("vg", o, ln))
@@ -771,6 +795,8 @@ def check(case, d, labels):
                        descriptor=None if tdd is None else [tdd.off, tdd.len], file_size=len(R.f.data),
                        reserved=n_, written=len(data_), program=prog)
         labels.add("reserved_tail")
+    if model.get("_vg_edit"):
+        labels.add("vgroup_record_shrunk")
     for what, o, ln in plan:
         if what == "sds":
             m = model[o["name"]]
